@@ -87,13 +87,22 @@ func (ucr *UnsignedChunkReader) Read(p []byte) (int, error) {
 			// Stop reading parsing payloads as 0 sized chunk is reached
 			break
 		}
+		if chunkSize < 0 {
+			return 0, errMalformedEncoding
+		}
 		rdr := io.TeeReader(ucr.reader, ucr.hasher)
-		payload := make([]byte, chunkSize)
-		// Read and cache the payload
-		_, err = io.ReadFull(rdr, payload)
+		// Read and cache the payload. The chunk size comes from the
+		// client: grow the buffer with the data actually received
+		// instead of allocating the declared size up front
+		var payloadBuf bytes.Buffer
+		_, err = io.CopyN(&payloadBuf, rdr, chunkSize)
 		if err != nil {
+			if err == io.EOF {
+				return 0, io.ErrUnexpectedEOF
+			}
 			return 0, err
 		}
+		payload := payloadBuf.Bytes()
 
 		// Skip the trailing "\r\n"
 		if err := ucr.readAndSkip('\r', '\n'); err != nil {
